@@ -1188,3 +1188,71 @@ def enum_eval(body, args, max_steps=500):
         else:
             raise EvalStuck("terminator " + t["k"])
     raise EvalStuck("too many steps")
+
+
+# ---------------------------------------------------------------------------- same-value reasoning
+def _root_local(body, op, depth=0):
+    """follow single-definition temporaries through use / ref / reborrow back to the variable the
+    operand reads: returns (local, projection-signature) or None"""
+    pl = op_place(op) if isinstance(op, dict) and "k" in op and op["k"] in ("copy", "move") else (op if isinstance(op, dict) and "l" in op else None)
+    if pl is None:
+        return None
+    l = pl["l"]
+    sig = tuple(p if p == "*" else (p.get("f") or p.get("dc") or "idx") for p in pl["p"] if p != "*")
+    for _ in range(12):
+        if 1 <= l <= body.argc:
+            return (l, sig)
+        ds = body.defs().get(l, [])
+        if len(ds) != 1 or ds[0]["kind"] != "assign" or not ds[0]["full"]:
+            return (l, sig)
+        rv = ds[0]["rv"]
+        if rv["k"] == "use" and rv["op"]["k"] in ("copy", "move"):
+            npl = rv["op"]["pl"]
+        elif rv["k"] == "ref":
+            npl = rv["pl"]
+        elif rv["k"] == "cast" and rv["op"]["k"] in ("copy", "move"):
+            npl = rv["op"]["pl"]
+        else:
+            return (l, sig)
+        sig = tuple(p if p == "*" else (p.get("f") or p.get("dc") or "idx") for p in npl["p"] if p != "*") + sig
+        l = npl["l"]
+    return (l, sig)
+
+
+def _same_value(self, op_a, bb_a_edges, op_b, bb_b):
+    """do the two operands read the same variable, with no assignment to it on any path from the
+    guard edges (bb_a_edges: nodes of the expanded graph) to block bb_b ?"""
+    ra, rb = _root_local(self, op_a), _root_local(self, op_b)
+    if ra is None or rb is None or ra != rb:
+        return False
+    l = ra[0]
+    def_blocks = {d["bb"] for d in self.defs().get(l, [])}
+    if not def_blocks:
+        return True
+    fwd = self.reach(bb_a_edges)
+    if bb_b not in fwd:
+        return False
+    # blocks on a path guard -> use: reachable from the guard and able to reach the use without re-entering it
+    g = self.xgraph()
+    rg = defaultdict(list)
+    for n, ss in g.items():
+        for s in ss:
+            rg[s].append(n)
+    back = set()
+    dq = deque([bb_b])
+    guard = set(bb_a_edges)
+    while dq:
+        n = dq.popleft()
+        for p in rg.get(n, ()):
+            if p in guard:
+                continue        # crossing the guard again re-establishes the fact
+            if p not in back and p in fwd:
+                back.add(p)
+                dq.append(p)
+    between = {n for n in back if isinstance(n, int)}
+    # a definition in the use block itself happens after the guard only if it precedes the use; calls define at block end
+    return not (def_blocks & (between - {bb_b}))
+
+
+Body.same_value = _same_value
+Body.root_local = lambda self, op: _root_local(self, op)
